@@ -4,12 +4,15 @@ package main
 
 import (
 	"bufio"
+	"crypto/sha256"
+	"encoding/hex"
 	"encoding/json"
 	"fmt"
 	"os"
 	"runtime"
 	"runtime/debug"
 	"runtime/pprof"
+	"strings"
 
 	"vh/env"
 	"vh/proto"
@@ -115,6 +118,40 @@ func main() {
 	}
 }
 
+// panicOrigin reads a debug.Stack() dump taken inside a deferred recover: it returns the first
+// function after the panic() frame that belongs either to the repository or to the harness
+// (frames of the runtime and of third-party libraries in between are skipped), and a short
+// list of the repository frames.
+func panicOrigin(stack string) (origin, frames string) {
+	lines := strings.Split(stack, "\n")
+	start := -1
+	for i, l := range lines {
+		if strings.HasPrefix(l, "panic(") {
+			start = i
+		}
+	}
+	if start < 0 {
+		return "", ""
+	}
+	var keep []string
+	for _, l := range lines[start+1:] {
+		if strings.HasPrefix(l, "\t") || l == "" {
+			continue
+		}
+		isRepo := strings.HasPrefix(l, "massnet.org/mass-wallet/") && !strings.Contains(l, "/vshim.")
+		isHarness := strings.HasPrefix(l, "vh/") || strings.HasPrefix(l, "main.")
+		if origin == "" && (isRepo || isHarness) {
+			origin = l
+		}
+		if isRepo && len(keep) < 5 {
+			if k := strings.LastIndex(l, "("); k > 0 {
+				keep = append(keep, strings.TrimPrefix(l[:k], "massnet.org/mass-wallet/"))
+			}
+		}
+	}
+	return origin, strings.Join(keep, " < ")
+}
+
 // safeRun executes the model in its own goroutine: a logging.CPrint(FATAL) inside wallet or
 // node code ends in logrus.Exit, which the harness turns into runtime.Goexit (env.Init);
 // the goroutine then simply ends and the trapped FATAL is reported.
@@ -125,7 +162,17 @@ func safeRun(m proto.Model, hist []string) *proto.Result {
 		defer close(done)
 		defer func() {
 			if e := recover(); e != nil {
-				r = &proto.Result{Err: fmt.Sprintf("panic in harness/model: %v\n%s", e, debug.Stack())}
+				st := string(debug.Stack())
+				if origin, frames := panicOrigin(st); strings.HasPrefix(origin, "massnet.org/mass-wallet/") {
+					// the panic was raised by (or below) a function of the repository while the model
+					// drove it through its public / hooked entry points: the wallet process would have
+					// died - a violation of whatever property the history belongs to, not a harness fault
+					kh := sha256.Sum256([]byte(strings.Join(hist, ",")))
+					r = &proto.Result{Viol: []string{fmt.Sprintf("the wallet code panicked: %v | %s", e, frames)}, KnownTags: []string{"wallet-panic"},
+						Key: "panic:" + hex.EncodeToString(kh[:12]), Outcome: "panic", Info: map[string]int{"wallet_panics": 1}}
+					return
+				}
+				r = &proto.Result{Err: fmt.Sprintf("panic in harness/model: %v\n%s", e, st)}
 			}
 		}()
 		r = m.Run(hist)
